@@ -206,7 +206,8 @@ class G:
                 a = r.choice(avs)
                 self.flags.add("array_push")
                 out.append("%sset %s (array_push %s %s)" % (indent, a, a, self.expr("int", env)))
-                self.nonempty[a] = self.nonempty.get(a, 0) + 1 if not in_loop else self.nonempty.get(a, 0)
+                # only a push that certainly runs (function body level, not in a branch or loop) raises the known minimum length
+                self.nonempty[a] = self.nonempty.get(a, 0) + 1 if (not in_loop and depth == 0) else self.nonempty.get(a, 0)
                 return out
         if c < 0.88:
             self.flags.add("assert_true")
